@@ -1007,3 +1007,37 @@ Proof.
       - destruct (ecd prefill 40 (as_cons a) 1 0); repeat eexists; left; reflexivity. }
     destruct Hx as (n & s & t & Hx). exists n, s, t. apply in_flat_map. exists (name, a). split; [exact Hin|exact Hx].
 Qed.
+
+(* ------------------------------------------------------------------------------------------------
+   (3) Tuple completion indexes the declared element constraints within bounds: whichever element slot the
+       recovery of the text left of the cursor selects - the next one behind a comma, the first one behind the
+       opening bracket, the one after the written elements - a constraint is declared for it.  (The model's
+       [nth_error ... = None] branch, the analogue of an index out of range in Tuple.CompletionAtPos, is dead.) *)
+Section TupleBounds.
+  Variable file : bytes.
+  Variable empties : list range.
+  Variable p : pos.
+
+  Lemma tuple_at_last_idx elems : forall i cs le li le' li',
+    tuple_at file empties p i elems cs le li = TDone le' li' -> (li' = li \/ (i <= li' < i + length elems)%nat).
+  Proof.
+    induction elems as [|x r IH]; intros i cs le li le' li' H; cbn [tuple_at] in H.
+    - destruct cs; injection H as _ <-; left; reflexivity.
+    - destruct cs as [|c cr]; [injection H as _ <-; left; reflexivity|].
+      destruct (is_empty_expr empties x); [injection H as _ <-; left; reflexivity|].
+      destruct (Z.ltb _ _); [injection H as _ <-; left; reflexivity|].
+      destruct (at_or_end _ _); [discriminate|]. destruct (dot_behind _ _ _); [discriminate|].
+      apply IH in H. cbn [length]. destruct H as [->|H]; right; lia.
+  Qed.
+
+  Lemma tuple_slot_declared elems cs le' li' (s : string) :
+    elems <> [] -> (length elems < length cs)%nat ->
+    tuple_at file empties p 0 elems cs 0%Z 0 = TDone le' li' \/ (exists le0, tuple_at file empties p 0 elems cs le0 0 = TDone le' li') ->
+    nth_error cs (if String.eqb s "," then S li' else if String.eqb s "[" then 0%nat else length elems) <> None.
+  Proof.
+    intros Hne Hlt H. apply nth_error_Some.
+    assert (Hli : (li' < length elems)%nat).
+    { destruct H as [H|(le0 & H)]; apply tuple_at_last_idx in H; destruct elems; try congruence; cbn [length] in *; destruct H as [->|H]; lia. }
+    destruct (String.eqb s ","); [lia|]. destruct (String.eqb s "["); lia.
+  Qed.
+End TupleBounds.
